@@ -3,7 +3,9 @@ use serde_json::Value;
 
 pub mod c02;
 pub mod c04;
+pub mod c05;
 pub mod c06;
+pub mod c09;
 pub mod c16;
 pub mod c17;
 
@@ -34,7 +36,7 @@ pub fn need(p: &Partial, counter: &str, min: u64) -> Result<(), String> {
     if n < min { Err(format!("oracle branch '{counter}' taken {n} times (< {min})")) } else { Ok(()) }
 }
 
-pub static ALL: &[&Prop] = &[&c02::PROP, &c04::PROP, &c06::PROP, &c16::PROP, &c17::PROP];
+pub static ALL: &[&Prop] = &[&c02::PROP, &c04::PROP, &c05::PROP, &c06::PROP, &c09::PROP, &c16::PROP, &c17::PROP];
 
 pub fn lookup(id: &str) -> Option<&'static Prop> {
     ALL.iter().copied().find(|p| p.id == id)
